@@ -54,7 +54,11 @@ func kinds() []blk.Kind {
 }
 
 func points(k blk.Kind) []string {
-	p := []string{"before-arrival", "after-failed-attempt-1", "after-failed-attempt-2", "asleep", "loser-retry", "inner-released-then-pause", "parallel-releases", "second-release-at-refused-handoff"}
+	var p []string
+	p = []string{"before-arrival", "after-failed-attempt-1", "after-failed-attempt-2", "asleep", "loser-retry", "inner-released-then-pause", "parallel-releases", "second-release-at-refused-handoff", "slow-inner-release"}
+	if k.Family != "queue" {
+		p = append(p, "helper-before-lock")
+	}
 	if k.Family == "queue" {
 		p = append(p, "queue.before_push", "queue.after_push")
 		if k.Evict {
@@ -179,6 +183,25 @@ func run(t *testing.T, sc scenario, r *rand.Rand) outcomeT {
 				}
 			}
 		}
+		if sc.Point == "slow-inner-release" {
+			// the delegate's listener takes its time before the unit is really back
+			w.Gate.BeforeInnerRelease = func(string) {
+				for i := 0; i < sc.Yields/4; i++ {
+					runtime.Gosched()
+				}
+			}
+		}
+		if sc.Point == "helper-before-lock" {
+			// the blocking / deadline limiters register for the wake-up through a helper goroutine: the holder completes while
+			// the targeted caller's helper is about to take the condition's lock
+			w.OnPoint("blocking.helper_before_lock", func(*blk.Waiter) {
+				if armed.Load() && reached.CompareAndSwap(false, true) {
+					fin := w.Actor.Do(func() { releaseNext() }, sc.Yields)
+					w.Tracef("subscribe helper paused before taking the lock; release finished within the pause: %v", fin)
+				}
+			})
+			armed.Store(true)
+		}
 		if sc.Point == "inner-released-then-pause" {
 			w.Gate.AfterInnerRelease = func(string) {
 				for i := 0; i < sc.Yields/4; i++ {
@@ -227,7 +250,7 @@ func run(t *testing.T, sc scenario, r *rand.Rand) outcomeT {
 		}
 		for i := 0; i < sc.Waiters; i++ {
 			w.Spawn()
-			if sc.Point == "asleep" || sc.Point == "loser-retry" || sc.Point == "parallel-releases" || sc.Point == "second-release-at-refused-handoff" || strings.HasPrefix(sc.Point, "handoff") || strings.HasPrefix(sc.Point, "next-in-line") {
+			if sc.Point == "asleep" || sc.Point == "loser-retry" || sc.Point == "parallel-releases" || sc.Point == "second-release-at-refused-handoff" || sc.Point == "slow-inner-release" || strings.HasPrefix(sc.Point, "handoff") || strings.HasPrefix(sc.Point, "next-in-line") {
 				w.Quiesce() // arrival order is a fact
 				if sc.Point == "handoff-vs-timeout" {
 					time.Sleep(time.Millisecond)
@@ -244,6 +267,10 @@ func run(t *testing.T, sc scenario, r *rand.Rand) outcomeT {
 			armed.Store(true)
 			releaseNext()
 			snap("after-release-with-loser-retry")
+		case "slow-inner-release":
+			reached.Store(true)
+			releaseNext()
+			snap("after-release-through-a-slow-delegate-listener")
 		case "second-release-at-refused-handoff":
 			armed.Store(true)
 			releaseNext()
